@@ -211,8 +211,15 @@ def build_object(spec, enums):
             kw["fields_titles"] = dict(spec["titles"])
         if spec.get("limits") is not None:
             kw["limits"] = tuple(spec["limits"])
+        if spec.get("skip_columns"):
+            kw["skip_columns"] = list(spec["skip_columns"])
         t = PPTable(recs, header=spec.get("header"), footer=spec.get("footer"), fmt=spec.get("fmt"), **kw)
+        if spec.get("via_fmt_obj"):
+            # a second table constructed from the format object of the first one
+            t = PPTable(recs, header=spec.get("header"), footer=spec.get("footer"), fmt_obj=t.fmt)
         return Built(k, t, spec, recs)
+    if k == "ppwrap":
+        return Built(k, akppobj.PPWrap(spec["value"]), spec)
     if k == "recfmt":
         recs = _records(spec)
         kw = {}
@@ -271,6 +278,8 @@ def start_rendering(built, conf, mode):
     elif k == "hdoc":
         # console help takes its colours from the global configuration when the command object is made
         r.hcmd = HCommand(built.spec.get("level", 1))
+    elif k == "ppwrap":
+        pass            # str(obj) renders under the global configuration at that moment
     else:
         raise ValueError(k)
     return r
@@ -278,6 +287,11 @@ def start_rendering(built, conf, mode):
 
 def whole_text(r, how="str"):
     k = r.built.kind
+    if k == "ppwrap":
+        return akcolor_strip_if(str(r.built.obj), how)
+    if how == "dunder":
+        # PPObj.__str__: the global configuration in force now
+        return str(r.built.obj)
     if k == "hdoc":
         text = r.hcmd._make_help_text(r.built.obj)
         return akcolor_strip_if(text, how)
@@ -299,8 +313,42 @@ def akcolor_strip_if(text, how):
     return text
 
 
+def poke(r, what):
+    """operations on a lazy result that must leave it unchanged (it memoises its text)"""
+    res = r.res
+    if what == "len":
+        return len(res)
+    if what == "add":
+        return str(res + "x") + str("y" + res)
+    if what == "slice":
+        return str(res[1:4]) + str(res[-3:])
+    if what == "fixed":
+        x = res.fixed_len(len(res))
+        x += "!"
+        return str(x)
+    if what == "fixed2":
+        x = res.fixed_len(len(res) + 2)
+        x += "!"
+        return str(x)
+    if what == "fmt":
+        return format(res, "^5") + format(res, "_>300")
+    if what == "getch":
+        c = res.get_ch_text()
+        c += "zz"
+        return str(c)
+    if what == "iadd":
+        y = res
+        y += "x"
+        return str(y)
+    if what == "eq":
+        return res == res
+    raise ValueError(what)
+
+
 def line_iter(r):
     k = r.built.kind
+    if k == "ppwrap":
+        return iter(str(r.built.obj).split("\n"))
     if k == "hdoc":
         return r.hcmd._gen_ch_lines(r.built.obj, HCommand._DFLT_FILT_ARG, r.hcmd.dets_level, False)
     if k == "recfmt":
